@@ -1,5 +1,7 @@
 from pyvc.contracts import contract
-from .common import type_options, type_bads_state
+from .common import type_options, type_bads_state, inv_bads
+from .bads_optimize import c10
+from .function_logger import wf_at
 
 B = "pybads.bads.bads.BADS"
 
@@ -8,8 +10,10 @@ B = "pybads.bads.bads.BADS"
 def _(c):
     type_options(c)
     type_bads_state(c)
+    inv_bads(c)
     c.ints("ghost.n_calls")
     c.arr("self.function_logger.X_flag", 1, [None], "bool")
+    c.arr("u_poll", 2, [None, "self.D"], nonnull=False)
     c.let(nY="count_true(self.function_logger.X_flag)", msi="self.mesh_size_integer", cap='self.options["max_poll_grid_number"]',
           ssi='self.optim_state["search_size_integer"]', fc="self.function_logger.func_count",
           B_='self.options["max_fun_evals"]', it='self.optim_state["iter"]',
@@ -26,6 +30,8 @@ def _(c):
         "best_is_gap": "poll_best_improvement == self.fval - f_poll_best and poll_best_improvement >= 0",
         "count": "poll_count >= 0",
         "calls_counted": "ghost.n_calls - old(ghost.n_calls) == fc - old(fc) and nY >= old(nY)",
+        "no_failure": "not truthy(ghost.target_raised)",
+        "logger_wf": wf_at("self.function_logger"),
         "budget": "implies(old(fc) < B_, fc <= B_) and fc >= old(fc) and implies(old(fc) >= B_, fc == old(fc))",
     }, variant=["2 * self.D - poll_count"])
     # --- C13 top-level clauses, taken from the property statement -------------------------------
@@ -45,5 +51,6 @@ def _(c):
     c.ens("points_kept", "nY >= old(nY)", props=["C03"])
     c.ens("options_kept", "self.options['search_n_try'] == old(self.options['search_n_try']) and B_ == old(B_) and "
           "self.options['max_iter'] == old(self.options['max_iter']) and cap == old(cap)")
+    c10(c)
     c.ens("controller_untouched", "self.optim_state['search_count'] == old(self.optim_state['search_count']) and "
           "self.search_success == old(self.search_success)", props=["C03"])
